@@ -621,6 +621,12 @@ class simulation_model():
 
         mymemo = self.memo[equation]
 
+        # a time that is a rounding error away from a grid point (0.3-0.1 = 0.19999999999999998) is that grid point
+        if isinstance(arg, float):
+            on_grid = round(self.starttime + round((arg - self.starttime) / self.dt) * self.dt, 12)
+            if arg != on_grid and abs(arg - on_grid) <= 1e-9 * max(1.0, abs(arg)):
+                arg = on_grid
+
         if arg in mymemo.keys():
             return mymemo[arg]
         else:
